@@ -149,6 +149,12 @@ def Pre (s : St) : Op → Prop
   | .addPicture slide (some img) _ _ => slide ∈ ids s ∧ img ∈ ids s
   | .addPicture slide none new ext => slide ∈ ids s ∧ new ∉ ids s ∧ '/' ∉ ext ∧ '.' ∉ ext
   | .addChart slide chart xlsx => slide ∈ ids s ∧ chart ∉ ids s ∧ xlsx ∉ ids s ∧ chart ≠ xlsx
+  | .addNotes _ slide (some m) _ _ nn => slide ∈ ids s ∧ m ∈ ids s ∧ nn ∉ ids s
+  | .addNotes pres slide none nm nt nn =>
+      pres ∈ ids s ∧ slide ∈ ids s ∧ pres ≠ slide ∧ nm ∉ ids s ∧ nt ∉ ids s ∧ nn ∉ ids s ∧ nm ≠ nt ∧ nm ≠ nn ∧ nt ≠ nn ∧
+      -- the one name the library does not search for: it must be free (it is, unless a notes master is in the package
+      -- that the presentation part is not related to)
+      masterName ∉ names s
 
 theorem mem_ids_of_mem {s : St} {p : PartRec} (h : p ∈ s) : p.id ∈ ids s := List.mem_map.2 ⟨p, h, rfl⟩
 
@@ -176,6 +182,70 @@ theorem relate_then_ref (s s1 : St) (hn : (ids s).Nodup) (i tgt : Nat) (rest : L
       · exact absurd e hne
       · simp [keys]
   rw [runD_cons _ _ _ _ w2]
+
+
+/-! ### keys that are free on a part, through deltas -/
+
+/-- no part with identity `j` holds a relationship under `x` -/
+def FreshKey (s : St) (j : Nat) (x : Str) : Prop := ∀ p ∈ s, p.id = j → x ∉ keys p
+
+theorem fresh_new (s : St) (j : Nat) (x : Str) (h : j ∉ ids s) : FreshKey s j x :=
+  fun p hp e => absurd (e ▸ mem_ids_of_mem hp) h
+
+theorem fresh_addPart (s : St) (i j : Nat) (n x : Str) (h : FreshKey s j x) : FreshKey (app s (.addPart i n)) j x := by
+  intro p hp e
+  rcases (mem_addPart s i n p).1 hp with hp' | rfl
+  · exact h p hp' e
+  · simp [keys]
+
+theorem fresh_addRel (s : St) (i j : Nat) (r x : Str) (t : Tgt) (h : FreshKey s j x) (hne : i = j → x ≠ r) :
+    FreshKey (app s (.addRel i r t)) j x := by
+  intro p hp e
+  rcases mem_addRel s i r t p hp with ⟨hp', _⟩ | ⟨q, hq, hqi, rfl⟩
+  · exact h p hp' e
+  · have hj : i = j := hqi.symm.trans e
+    have := h q hq (hqi.trans hj)
+    simp only [keys, List.map_append, List.map_cons, List.map_nil, List.mem_append, List.mem_singleton, not_or]
+    exact ⟨this, hne hj⟩
+
+theorem wf_addRelF (s : St) (i : Nat) (rid : Str) (t : Nat) (hi : i ∈ ids s) (ht : t ∈ ids s) (hk : FreshKey s i rid) :
+    wf s (.addRel i rid (.int t)) = true := wf_addRel s i rid t hi ht hk
+
+theorem rId1_ne_rId2 : rIdStr 2 ≠ rIdStr 1 := by decide
+
+/-- two names that differ within their first `k` characters, whatever follows -/
+theorem append_ne_of_take_ne (a b x y : Str) (k : Nat) (ha : k ≤ a.length) (hb : k ≤ b.length)
+    (h : a.take k ≠ b.take k) : a ++ x ≠ b ++ y := by
+  intro e
+  apply h
+  have := congrArg (List.take k) e
+  rwa [List.take_append_of_le_length ha, List.take_append_of_le_length hb] at this
+
+theorem nextName_shape (s : St) (pre post : Str) : ∃ n, nextName s pre post = pre ++ (natStr n ++ post) := by
+  unfold nextName
+  split
+  · rename_i n _; exact ⟨n, by simp [List.append_assoc]⟩
+  · exact ⟨1, by simp [List.append_assoc]⟩
+
+theorem theme_ne_master (s : St) : nextName s themePre xmlPost ≠ masterName := by
+  obtain ⟨n, e⟩ := nextName_shape s themePre xmlPost
+  rw [e]
+  have : masterName = "/ppt/n".toList ++ "otesMasters/notesMaster1.xml".toList := by decide
+  rw [this]
+  exact append_ne_of_take_ne _ _ _ _ 6 (by decide) (by decide) (by decide)
+
+theorem notes_ne_master (s : St) : nextName s notesPre xmlPost ≠ masterName := by
+  obtain ⟨n, e⟩ := nextName_shape s notesPre xmlPost
+  rw [e]
+  have : masterName = "/ppt/notesM".toList ++ "asters/notesMaster1.xml".toList := by decide
+  rw [this]
+  exact append_ne_of_take_ne _ _ _ _ 11 (by decide) (by decide) (by decide)
+
+theorem notes_ne_theme (s : St) : nextName s notesPre xmlPost ≠ nextName s themePre xmlPost := by
+  obtain ⟨n, e⟩ := nextName_shape s notesPre xmlPost
+  obtain ⟨m, e'⟩ := nextName_shape s themePre xmlPost
+  rw [e, e']
+  exact append_ne_of_take_ne _ _ _ _ 6 (by decide) (by decide) (by decide)
 
 theorem predict_runs (s : St) (op : Op) (hi : C02.Inv s) (pre : Pre s op) : ∃ s', runD s (predict s op) 0 = .ok s' := by
   have hn := hi.ids_nodup
@@ -301,6 +371,87 @@ theorem predict_runs (s : St) (op : Op) (hi : C02.Inv s) (pre : Pre s op) : ∃ 
           · rw [h] at e; exact absurd e.symm hne2
         · exact absurd (e.symm.trans hpid) hne
       · exact absurd (e.symm.trans hpid) hne
+
+  | addNotes pres slide master nm nt nn =>
+    have fresh_old : ∀ i, i ∈ ids s → FreshKey s i (nextRId s i) := by
+      intro i _ p hp e
+      have := nextRId_fresh s hn p hp
+      rw [e] at this; exact this
+    cases master with
+    | some m =>
+      obtain ⟨hs, hm, hnn⟩ := pre
+      have hne : slide ≠ nn := fun e => hnn (e ▸ hs)
+      show ∃ s', runD s (predictNotes s pres slide (some m) nm nt nn) 0 = .ok s'
+      unfold predictNotes
+      simp only []
+      rw [runD_cons _ _ _ _ (wf_addPart s nn _ hnn (nextName_fresh s _ _))]
+      rw [runD_cons _ _ _ _ (wf_addRelF _ nn _ m (by rw [ids_addPart]; simp) (by rw [ids_addPart]; simp [hm])
+        (fresh_addPart _ _ _ _ _ (fresh_new s nn _ hnn)))]
+      rw [runD_cons _ _ _ _ (wf_addRelF _ nn _ slide (by rw [ids_addRel, ids_addPart]; simp)
+        (by rw [ids_addRel, ids_addPart]; simp [hs])
+        (fresh_addRel _ _ _ _ _ _ (fresh_addPart _ _ _ _ _ (fresh_new s nn _ hnn)) (fun _ => rId1_ne_rId2)))]
+      rw [runD_cons _ _ _ _ (wf_addRelF _ slide _ nn (by rw [ids_addRel, ids_addRel, ids_addPart]; simp [hs])
+        (by rw [ids_addRel, ids_addRel, ids_addPart]; simp)
+        (fresh_addRel _ _ _ _ _ _ (fresh_addRel _ _ _ _ _ _ (fresh_addPart _ _ _ _ _ (fresh_old slide hs))
+          (fun e => absurd e.symm hne)) (fun e => absurd e.symm hne)))]
+      exact ⟨_, rfl⟩
+    | none =>
+      obtain ⟨hp, hs, hps, hnm, hnt, hnn, d1, d2, d3, hname⟩ := pre
+      have e1 : pres ≠ nm := fun e => hnm (e ▸ hp)
+      have e2 : pres ≠ nt := fun e => hnt (e ▸ hp)
+      have e3 : pres ≠ nn := fun e => hnn (e ▸ hp)
+      have f1 : slide ≠ nm := fun e => hnm (e ▸ hs)
+      have f2 : slide ≠ nt := fun e => hnt (e ▸ hs)
+      have f3 : slide ≠ nn := fun e => hnn (e ▸ hs)
+      show ∃ s', runD s (predictNotes s pres slide none nm nt nn) 0 = .ok s'
+      unfold predictNotes
+      simp only []
+      -- the master and its theme
+      rw [runD_cons _ _ _ _ (wf_addPart s nm _ hnm hname)]
+      rw [runD_cons _ _ _ _ (wf_addPart _ nt _ (by rw [ids_addPart]; simp [hnt, Ne.symm d1])
+        (by rw [names_addPart]; simp only [List.mem_append, List.mem_singleton, not_or]
+            exact ⟨nextName_fresh s _ _, theme_ne_master s⟩))]
+      rw [runD_cons _ _ _ _ (wf_addRelF _ nm _ nt (by rw [ids_addPart, ids_addPart]; simp)
+        (by rw [ids_addPart, ids_addPart]; simp)
+        (fresh_addPart _ _ _ _ _ (fresh_addPart _ _ _ _ _ (fresh_new s nm _ hnm))))]
+      rw [runD_cons _ _ _ _ (wf_addRelF _ pres _ nm (by rw [ids_addRel, ids_addPart, ids_addPart]; simp [hp])
+        (by rw [ids_addRel, ids_addPart, ids_addPart]; simp)
+        (fresh_addRel _ _ _ _ _ _ (fresh_addPart _ _ _ _ _ (fresh_addPart _ _ _ _ _ (fresh_old pres hp)))
+          (fun e => absurd e.symm e1)))]
+      -- the notes slide
+      rw [runD_cons _ _ _ _ (wf_addPart _ nn _
+        (by rw [ids_addRel, ids_addRel, ids_addPart, ids_addPart]; simp [hnn, Ne.symm d2, Ne.symm d3])
+        (by rw [names_addRel, names_addRel, names_addPart, names_addPart]
+            simp only [List.mem_append, List.mem_singleton, not_or]
+            exact ⟨⟨nextName_fresh s _ _, notes_ne_master s⟩, notes_ne_theme s⟩))]
+      rw [runD_cons _ _ _ _ (wf_addRelF _ nn _ nm
+        (by rw [ids_addPart, ids_addRel, ids_addRel, ids_addPart, ids_addPart]; simp)
+        (by rw [ids_addPart, ids_addRel, ids_addRel, ids_addPart, ids_addPart]; simp)
+        (fresh_addPart _ _ _ _ _ (fresh_addRel _ _ _ _ _ _ (fresh_addRel _ _ _ _ _ _
+          (fresh_addPart _ _ _ _ _ (fresh_addPart _ _ _ _ _ (fresh_new s nn _ hnn)))
+          (fun e => absurd e d2)) (fun e => absurd e e3))))]
+      rw [runD_cons _ _ _ _ (wf_addRelF _ nn _ slide
+        (by rw [ids_addRel, ids_addPart, ids_addRel, ids_addRel, ids_addPart, ids_addPart]; simp)
+        (by rw [ids_addRel, ids_addPart, ids_addRel, ids_addRel, ids_addPart, ids_addPart]; simp [hs])
+        (fresh_addRel _ _ _ _ _ _ (fresh_addPart _ _ _ _ _ (fresh_addRel _ _ _ _ _ _ (fresh_addRel _ _ _ _ _ _
+          (fresh_addPart _ _ _ _ _ (fresh_addPart _ _ _ _ _ (fresh_new s nn _ hnn)))
+          (fun e => absurd e d2)) (fun e => absurd e e3))) (fun _ => rId1_ne_rId2)))]
+      rw [runD_cons _ _ _ _ (wf_addRelF _ slide _ nn
+        (by rw [ids_addRel, ids_addRel, ids_addPart, ids_addRel, ids_addRel, ids_addPart, ids_addPart]; simp [hs])
+        (by rw [ids_addRel, ids_addRel, ids_addPart, ids_addRel, ids_addRel, ids_addPart, ids_addPart]; simp)
+        (fresh_addRel _ _ _ _ _ _ (fresh_addRel _ _ _ _ _ _ (fresh_addPart _ _ _ _ _ (fresh_addRel _ _ _ _ _ _
+          (fresh_addRel _ _ _ _ _ _
+          (fresh_addPart _ _ _ _ _ (fresh_addPart _ _ _ _ _ (fresh_old slide hs)))
+          (fun e => absurd e.symm f1)) (fun e => absurd e hps))) (fun e => absurd e.symm f3)) (fun e => absurd e.symm f3)))]
+      exact ⟨_, rfl⟩
+
+/-- the one precondition of `addNotes` that is not discharged from the code: `create_default` does not search for a free
+    name.  With a notes master in the package that the presentation part is NOT related to (a notes slide relates it; other
+    producers' decks), the call is predicted ill-formed - the point excluded is a state of the real library too (see the
+    harness: `notes-master-name-taken`) -/
+theorem notes_fixed_name_collides :
+    step [⟨1, "/ppt/presentation.xml".toList, [("rId1".toList, .int 2)], ["rId1".toList]⟩, ⟨2, "/ppt/slides/slide1.xml".toList, [], []⟩,
+          ⟨3, masterName, [], []⟩] (.addNotes 1 2 none 4 5 6) = none := by decide
 
 /-- **the call goes through and leaves the package graph closed** -/
 theorem predict_ok (s : St) (op : Op) (hi : C02.Inv s) (pre : Pre s op) :
